@@ -29,7 +29,9 @@ RULE = ("histories of 1-14 operations of the Discovery API (register/unregister 
         "with and without a discovery node; styles: deployment-like (own name and address), arbitrary "
         "arguments (wrong agents, missing addresses: the error paths), mixed; every schedule starts all "
         "nodes, then interleaves operations and per-channel-FIFO deliveries under 6 policies, 80% drained "
-        "to quiescence, 20% cut after 5-80 actions (in-flight messages compared). non-trivial = at least "
+        "to quiescence, 20% cut after 5-80 actions (in-flight messages compared); 1 case in 16 is the re-hosting "
+        "race (subscriber registers the computation on itself while the old host's named un-publication is "
+        "forwarded to it: forced schedule prefix, random tail). non-trivial = at least "
         "one callback fired and at least one (subscriber, item) pair the directory had to keep informed; "
         "distinct = distinct case JSON")
 MODELLED = ("Directory, DirectoryComputation, Discovery, DiscoveryComputation are modelled in full (every "
@@ -199,9 +201,34 @@ def _gen_op(rng, a, n, style, agents, comps, cbs):
     return [k, ag() if k == "unsub_agent" else co(), cb(0.5)]
 
 
+def _gen_rehost(rng):
+    """re-hosting race (C27-stale-unpublication-kills-subscriber-thread, fixed in /repo 3fa7ad9): agent 2
+    is subscribed to computation 0 hosted on agent 1, registers it on itself, and the un-publication of
+    agent 1 (naming agent 1) is accepted by the directory and forwarded to 2 before 2's publication arrives:
+    the handler of 2 gets an un-publication naming another agent than the one it lists"""
+    na = rng.choice([2, 3])
+    agents, comps, cbs = list(range(1, na + 1)), [0, 1], [1, 2]
+    hist = {str(a): [] for a in agents}
+    hist["1"] = [["reg_agent", 1, addr_of(1)], ["reg_comp", 0, 1, addr_of(1)], ["unreg_comp", 0, 1]]
+    hist["2"] = [["reg_agent", 2, addr_of(2)], ["sub_comp", 0, rng.choice([None, 1, 2]), rng.random() < 0.3],
+                 ["reg_comp", 0, 2, addr_of(2)]]
+    for _i in range(rng.randint(0, 4)):
+        a = rng.randint(1, na)
+        hist[str(a)].append(_gen_op(rng, a, na, "natural", agents, comps, cbs))
+    sched = [["D", -1, 1], ["D", -1, 1], ["D", 1, 0], ["D", 1, 0], ["D", -2, 2], ["D", -2, 2], ["D", 2, 0], ["D", 2, 0],
+             ["D", 0, 2], ["D", 0, 2], ["D", -2, 2], ["D", -1, 1], ["D", 1, 0], ["D", 1, 0], ["D", 0, 2], ["D", 0, 2]]
+    if rng.random() < 0.3:      # sometimes the usual order: the new host's publication first
+        sched.insert(12, ["D", 2, 0])
+    return dict(n=na, hist=hist, seed=rng.randrange(10 ** 9), drain=rng.random() < 0.8, steps=rng.randint(5, 40),
+                policy=rng.choice(["uniform", "drain", "newest"]), sched=sched)
+
+
 def gen(rng, n, tier):
     cases = []
-    for _ in range(n):
+    for _k in range(n):
+        if _k % 16 == 7:
+            cases.append(_gen_rehost(rng))
+            continue
         na = rng.choice([1, 2, 2, 3, 3])
         style = rng.choice(["natural", "natural", "any", "mixed"])
         agents = list(range(1, na + 1)) + ([na + 1] if rng.random() < 0.5 else [])
